@@ -39,6 +39,8 @@ package main
 
 import (
 	"fmt"
+	"go/token"
+	"go/types"
 	"math"
 	"math/big"
 	"os"
@@ -169,7 +171,7 @@ func checkC02(ctx *Ctx, r *Report, tier string) {
 			r.undecided("M-spec", sp.ctor, 0, "constructor not found")
 			continue
 		}
-		alts, _ := ctorAlts(ctx, fn, "SawTooth", "Clamp")
+		alts, _ := ctorAltsFollow(ctx, fn, "SawTooth", "Clamp")
 		if len(alts) == 0 {
 			r.undecided("M-spec", sp.ctor, fn.Pos(), "no alternative of the constructor builds an object")
 			continue
@@ -208,6 +210,7 @@ func checkC02(ctx *Ctx, r *Report, tier string) {
 	checkSlice(ctx, r)
 	checkLoftMix(ctx, r, "M10")
 	checkPolyKernel(ctx, r, "M11")
+	checkOperandListOwned(ctx, r)
 	checkFolds(ctx, r)
 	checkSawTooth(ctx, r)
 	checkCacheIdentity(ctx, r)
@@ -1571,4 +1574,109 @@ func checkPolyKernel(ctx *Ctx, r *Report, rule string) {
 		r.check(rule, "PolyMin|"+what, fn.Pos(), bad[what] == "", fmt.Sprintf("%d grid points, exact rational evaluation of the closed form; %s", n, bad[what]))
 	}
 	r.floor(rule, 7)
+}
+
+// checkOperandListOwned (M12): a combinator that takes its operands as a slice (the variadic
+// unions) is "the minimum over its operands" only while its operand list stays what it was built
+// from. The variadic parameter is the caller's own slice when called as f(parts...): a list
+// field that shares its backing array with the parameter changes when the caller reuses the slice,
+// and filtering into it in place rewrites the caller's operands. Decided on the SSA form: the
+// roots of every slice of SDFs stored into a field (through re-slicing, append's first argument,
+// phis and loads of the same field) must not include a parameter.
+func checkOperandListOwned(ctx *Ctx, r *Report) {
+	n := 0
+	for _, fn := range ctx.srcFuncs("sdf") {
+		if fn.Parent() != nil || fn.Signature.Recv() != nil {
+			continue
+		}
+		res := fn.Signature.Results()
+		if res.Len() == 0 || !isSDFType(res.At(0).Type()) {
+			continue
+		}
+		isSDFSlice := func(t types.Type) bool {
+			sl, ok := t.Underlying().(*types.Slice)
+			return ok && isSDFType(sl.Elem())
+		}
+		hasParam := false
+		for _, p := range fn.Params {
+			if isSDFSlice(p.Type()) {
+				hasParam = true
+			}
+		}
+		if !hasParam {
+			continue
+		}
+		sameCell := func(a, b ssa.Value) bool {
+			fa, ok1 := a.(*ssa.FieldAddr)
+			fb, ok2 := b.(*ssa.FieldAddr)
+			return a == b || (ok1 && ok2 && fa.X == fb.X && fa.Field == fb.Field)
+		}
+		var roots func(v ssa.Value, seen map[ssa.Value]bool, out map[string]bool)
+		roots = func(v ssa.Value, seen map[ssa.Value]bool, out map[string]bool) {
+			if seen[v] {
+				return
+			}
+			seen[v] = true
+			switch x := v.(type) {
+			case *ssa.Parameter:
+				out["parameter "+x.Name()] = true
+			case *ssa.Slice:
+				roots(x.X, seen, out)
+			case *ssa.ChangeType:
+				roots(x.X, seen, out)
+			case *ssa.Phi:
+				for _, e := range x.Edges {
+					roots(e, seen, out)
+				}
+			case *ssa.Call:
+				if b, ok := x.Call.Value.(*ssa.Builtin); ok && b.Name() == "append" {
+					roots(x.Call.Args[0], seen, out)
+				} else {
+					out["fresh"] = true
+				}
+			case *ssa.UnOp:
+				if x.Op == token.MUL {
+					allInstrs(fn, func(_ *ssa.BasicBlock, ins ssa.Instruction) {
+						if st, ok := ins.(*ssa.Store); ok && sameCell(st.Addr, x.X) {
+							roots(st.Val, seen, out)
+						}
+					})
+				}
+			default:
+				out["fresh"] = true
+			}
+		}
+		perField := map[int][]string{}
+		fieldPos := map[int]token.Pos{}
+		allInstrs(fn, func(_ *ssa.BasicBlock, ins ssa.Instruction) {
+			st, ok := ins.(*ssa.Store)
+			if !ok || !isSDFSlice(st.Val.Type()) {
+				return
+			}
+			fa, ok := st.Addr.(*ssa.FieldAddr)
+			if !ok {
+				return
+			}
+			out := map[string]bool{}
+			roots(st.Val, map[ssa.Value]bool{}, out)
+			if _, seen := perField[fa.Field]; !seen {
+				perField[fa.Field] = nil
+				fieldPos[fa.Field] = st.Pos()
+			}
+			for k := range out {
+				if strings.HasPrefix(k, "parameter ") {
+					perField[fa.Field] = append(perField[fa.Field], k+" (store at "+ctx.pos(st.Pos())+")")
+					fieldPos[fa.Field] = st.Pos()
+				}
+			}
+		})
+		for f, shared := range perField {
+			sort.Strings(shared)
+			n++
+			r.check("M12", fmt.Sprintf("%s|operand-list-field#%d-does-not-share-the-callers-slice", fn.Name(), f), fieldPos[f], len(shared) == 0,
+				"the stored operand list is built in storage the constructor allocated; shares a backing array with: "+strings.Join(shared, ", "))
+		}
+	}
+	_ = n
+	r.floor("M12", 2)
 }
